@@ -127,10 +127,17 @@ func genScenario(r *core.Run) *scenario {
 		sc.texts = append(sc.texts, txt)
 		sc.pols = append(sc.pols, &p)
 	}
-	if r.T.Intn(8) == 7 {
+	switch x := r.T.Intn(8); {
+	case x == 7:
 		sc.ents = nil
 		sc.entsStr = "nil"
-	} else {
+	case x >= 5:
+		// a store that is not an EntityMap (the identity of the EntityGetter must not matter)
+		em := g.Entities()
+		sc.ents = &funcGetter{m: em}
+		b, _ := em.MarshalJSON()
+		sc.entsStr = "custom EntityGetter over " + string(b)
+	default:
 		em := g.Entities()
 		sc.ents = em
 		b, _ := em.MarshalJSON()
@@ -256,6 +263,18 @@ func genScenario(r *core.Run) *scenario {
 	}
 	sc.req = req
 	return sc
+}
+
+// funcGetter is an EntityGetter that is not an EntityMap.
+type funcGetter struct {
+	m     types.EntityMap
+	calls int
+}
+
+func (f *funcGetter) Get(uid types.EntityUID) (types.Entity, bool) {
+	f.calls++
+	e, ok := f.m[uid]
+	return e, ok
 }
 
 type orderedPolicies struct {
